@@ -165,3 +165,82 @@ def c08_2(I, shape):
         I.check(conn.closed, "closed-after-alert")
     else:
         I.cover(out["kind"])
+
+
+# ---------------------------------------------------------------------------
+# C08.3  HelloRetryRequest: the second ClientHello
+# ---------------------------------------------------------------------------
+from models.hello import EC_CHAIN, EC_KEY
+import tlslite.messages as _Msg
+
+
+def _shapes_c08_3(tier):
+    return [dict(shares=k) for k in (0, 1, 2)]
+
+
+@obligation("C08.3", _shapes_c08_3,
+            functions=["tlslite.tlsconnection:TLSConnection."
+                       "_serverGetClientHello"],
+            assumes=HELLO_ASSUMES + [
+                "first ClientHello offers TLS 1.3 with supported_groups "
+                "{x25519, secp256r1} and a key share for a group the server "
+                "does not accept first -> HelloRetryRequest; the second "
+                "ClientHello carries 0, 1 or 2 key shares whose groups are "
+                "symbolic, the echoed cookie, everything else as before"],
+            patches=lambda s: (hello_proxies(), hello_stubs()),
+            max_paths=8000, also=("C04", "C06"))
+def c08_3(I, shape):
+    """the second ClientHello is accepted only with exactly one key share
+    for the requested group; anything else is a fatal alert, never a Python
+    exception"""
+    settings = HandshakeSettings()
+    settings.keyShares = ["secp256r1"]
+    settings.eccCurves = ["secp256r1"]      # x25519 share is not acceptable
+    settings = settings.validate()
+    suites = [CipherSuite.TLS_AES_128_GCM_SHA256]
+    groups = [GroupName.x25519, GroupName.secp256r1]
+
+    def hello(shares, cookie=None):
+        exts = [_X.SupportedGroupsExtension().create(list(groups)),
+                _X.SignatureAlgorithmsExtension().create([(8, 4), (4, 1)]),
+                _X.SupportedVersionsExtension().create([(3, 4)]),
+                _X.ClientKeyShareExtension().create(shares)]
+        if cookie is not None:
+            exts.append(cookie)
+        return ch_bytes((3, 3), suites, exts, session_id=b"\x05" * 32)
+    first = hello([_X.KeyShareEntry().create(GroupName.x25519,
+                                             bytearray(32))])
+    # cookie the server will send: 00 20 || 32 fixed "random" bytes
+    from models.hello import fixed_random
+    cookie = raw_ext(ExtensionType.cookie,
+                     list(bytearray(b"\x00\x20") + fixed_random(32)))
+    shares2 = []
+    for j in range(shape["shares"]):
+        g = I.uint(16, "group")
+        shares2.append(_X.KeyShareEntry().create(
+            g, bytearray(b"\x04" + b"\x01" * 64)))
+    second = hello(shares2, cookie)
+    wire = record(ContentType.handshake, first) + \
+        record(ContentType.handshake, second)
+    conn = server_conn(wire)
+    try:
+        out = run_server_hello(conn, settings, RSA_CHAIN, RSA_KEY)
+    except (PathAbort, Unsupported):
+        raise
+    except TLSAbruptCloseError:
+        I.fail("second ClientHello was not read")
+        return
+    except Exception as e:
+        I.fail("HRR processing raised %s" % type(e).__name__, detail=repr(e))
+        return
+    sent = out["sent"]
+    hrr = [r for r in sent if r[0] == ContentType.handshake]
+    I.check(len(hrr) >= 1, "hello-retry-request-was-sent")
+    if out["kind"] == "ret":
+        I.check(shape["shares"] == 1 and
+                bool(shares2[0].group == GroupName.secp256r1),
+                "accepted-only-with-exactly-the-requested-share")
+    else:
+        I.check(out["kind"] == "alert", "otherwise-a-fatal-alert")
+        I.check(len(sent) >= 2 and sent[-1][0] == ContentType.alert,
+                "alert-on-the-wire")
